@@ -94,6 +94,24 @@ def _structure_returns(body: List[ast.stmt]) -> List[ast.stmt]:
     return out
 
 
+def _tail_returns(body: List[ast.stmt]) -> List[ast.Return]:
+    """Return statements in tail position (last statement, recursively through if/else)."""
+    if not body:
+        return []
+    last = body[-1]
+    if isinstance(last, ast.Return):
+        return [last]
+    if isinstance(last, ast.If):
+        return _tail_returns(last.body) + _tail_returns(last.orelse)
+    return []
+
+
+def _only_tail_returns(body: List[ast.stmt]) -> bool:
+    """Every `return` of the body is in tail position: turning returns into assignments cannot let control fall through."""
+    tails = {id(r) for r in _tail_returns(body)}
+    return all(id(r) in tails for r in _returns(body))
+
+
 def _returns(body: List[ast.stmt]) -> List[ast.Return]:
     out = []
     for s in body:
@@ -123,8 +141,13 @@ def _straight_line_as_return(body: List[ast.stmt]) -> Optional[List[ast.stmt]]:
         nm = st.targets[0].id
         if nm in defs:
             return None
-        if any(isinstance(c, ast.Call) and not (isinstance(c.func, ast.Name) and (c.func.id in ("getbit", "pack", "strtoio", "iotostr", "ord", "int", "len", "min", "max", "abs", "bytes", "chr") or c.func.id[:1].isupper())) for c in ast.walk(st.value)):
-            return None  # (constructor calls - capitalised names - only build objects)
+        if any(
+            isinstance(c, ast.Call)
+            and not (isinstance(c.func, ast.Name) and (c.func.id in ("getbit", "pack", "strtoio", "iotostr", "ord", "int", "len", "min", "max", "abs", "bytes", "chr") or c.func.id[:1].isupper()))
+            and not (isinstance(c.func, ast.Attribute) and c.func.attr in ("endswith", "startswith", "upper", "lower", "strip", "lstrip", "rstrip", "find", "replace", "name"))
+            for c in ast.walk(st.value)
+        ):
+            return None  # (constructor calls - capitalised names - only build objects; the string methods are pure)
         defs[nm] = _Subst(dict(defs)).visit(copy.deepcopy(st.value))
     ret = ast.Return(_Subst(defs).visit(copy.deepcopy(body[-1].value)))
     return [ast.copy_location(ret, body[-1])]
@@ -142,10 +165,30 @@ def _relocate(stmts: List[ast.stmt], site: ast.AST):
 
 
 class _Inliner:
-    def __init__(self, helpers: Dict[str, ast.FunctionDef]):
+    def __init__(self, helpers: Dict[str, ast.FunctionDef], methods: Optional[Dict[str, ast.FunctionDef]] = None):
         self.helpers = helpers
+        self.methods = methods or {}  # private methods of the class being normalised: self._h(...)
         self.counter = 0
         self.changed = False
+
+    def lookup(self, call: ast.Call) -> Optional[ast.FunctionDef]:
+        """The helper a call refers to, as a plain function (a method loses its `self` parameter: inside the class
+        `self` means the same object before and after inlining)."""
+        f = call.func
+        if isinstance(f, ast.Name) and f.id in self.helpers:
+            return self.helpers[f.id]
+        if isinstance(f, ast.Attribute) and isinstance(f.value, ast.Name) and f.value.id in ("self", "cls") and f.attr in self.methods:
+            m = self.methods[f.attr]
+            static = any(isinstance(d, ast.Name) and d.id == "staticmethod" for d in m.decorator_list)
+            if static:
+                return m
+            if any(isinstance(d, ast.Name) and d.id in ("property",) for d in m.decorator_list) or not m.args.args:
+                return None
+            m2 = copy.copy(m)
+            m2.args = copy.copy(m.args)
+            m2.args.args = m.args.args[1:]
+            return m2
+        return None
 
     def binding(self, fn: ast.FunctionDef, call: ast.Call, body: Optional[List[ast.stmt]] = None) -> Optional[Dict[str, ast.AST]]:
         a = fn.args
@@ -200,8 +243,8 @@ class _Inliner:
         class T(ast.NodeTransformer):
             def visit_Call(self, n: ast.Call):
                 self.generic_visit(n)
-                if isinstance(n.func, ast.Name) and n.func.id in inl.helpers:
-                    fn = inl.helpers[n.func.id]
+                if inl.lookup(n) is not None:
+                    fn = inl.lookup(n)
                     body = _straight_line_as_return(_body_wo_doc(fn))
                     if body is not None and len(body) == 1 and isinstance(body[0], ast.Return) and body[0].value is not None and not _has_nested_def(body):
                         m = inl.binding(fn, n, body)
@@ -222,14 +265,43 @@ class _Inliner:
                 sub = getattr(st, fld, None)
                 if isinstance(sub, list) and sub and isinstance(sub[0], ast.stmt) and not isinstance(st, ast.FunctionDef):
                     setattr(st, fld, self.stmt_inline(sub))
+            # a helper call buried in a simple statement (`s.update(h(x))`) is first hoisted: `t = h(x); s.update(t)`
+            if isinstance(st, (ast.Expr, ast.Assign, ast.AugAssign, ast.Return)) and not (isinstance(st, (ast.Expr, ast.Return)) and isinstance(st.value, ast.Call) and self.lookup(st.value) is not None) and not (isinstance(st, ast.Assign) and isinstance(st.value, ast.Call) and self.lookup(st.value) is not None):
+                guarded = set()
+                for n in ast.walk(st):
+                    if isinstance(n, (ast.Lambda, ast.ListComp, ast.SetComp, ast.DictComp, ast.GeneratorExp, ast.IfExp, ast.BoolOp)):
+                        guarded |= {id(x) for x in ast.walk(n) if x is not n}
+                cands = [n for n in ast.walk(st) if isinstance(n, ast.Call) and id(n) not in guarded and self.lookup(n) is not None]
+                if len(cands) == 1:
+                    fn_ = self.lookup(cands[0])
+                    b_ = _structure_returns(_body_wo_doc(fn_))
+                    sl_ = _straight_line_as_return(b_)
+                    if not (sl_ is not None and len(sl_) == 1) and _all_paths_return_value(b_) and _only_tail_returns(b_) and self.binding(fn_, cands[0], b_) is not None:
+                        self.counter += 1
+                        tmp = f"hoisted__{fn_.name}{self.counter}"
+                        asg = ast.copy_location(ast.Assign([ast.Name(tmp, ast.Store())], cands[0]), st)
+                        target_call = cands[0]
+
+                        class R(ast.NodeTransformer):
+                            def visit_Call(self, n):
+                                if n is target_call:
+                                    return ast.copy_location(ast.Name(tmp, ast.Load()), n)
+                                self.generic_visit(n)
+                                return n
+
+                        st2 = R().visit(st)
+                        ast.fix_missing_locations(asg)
+                        out.extend(self.stmt_inline([asg, st2]))
+                        self.changed = True
+                        continue
             call = None
             targets = None
-            if isinstance(st, ast.Return) and isinstance(st.value, ast.Call) and isinstance(st.value.func, ast.Name) and st.value.func.id in self.helpers:
+            if isinstance(st, ast.Return) and isinstance(st.value, ast.Call) and self.lookup(st.value) is not None:
                 # `return h(args)`: the helper's body takes the place of the statement, its returns stay returns
-                fn = self.helpers[st.value.func.id]
+                fn = self.lookup(st.value)
                 body = _structure_returns(_body_wo_doc(fn))
                 m = self.binding(fn, st.value, body)
-                if m is not None and not _has_nested_def(body) and len(body) <= 40 and _all_paths_return_value(body):
+                if m is not None and not _has_nested_def(body) and len(body) <= 40 and _all_paths_return_value(body) and _only_tail_returns(body):
                     new = self.rename_locals(fn, body, m)
                     _relocate(new, st)
                     out.extend(self.stmt_inline(new))
@@ -239,8 +311,8 @@ class _Inliner:
                 call = st.value
             elif isinstance(st, ast.Assign) and isinstance(st.value, ast.Call) and len(st.targets) == 1:
                 call, targets = st.value, st.targets[0]
-            if call is not None and isinstance(call.func, ast.Name) and call.func.id in self.helpers:
-                fn = self.helpers[call.func.id]
+            if call is not None and self.lookup(call) is not None:
+                fn = self.lookup(call)
                 body = _structure_returns(_body_wo_doc(fn))
                 m = self.binding(fn, call, body)
                 rets = _returns(body)
@@ -251,7 +323,7 @@ class _Inliner:
                         out.extend(self.stmt_inline(new))
                         self.changed = True
                         continue
-                    if targets is not None and _all_paths_return_value(body) and not any(isinstance(n, (ast.For, ast.While)) and any(isinstance(r, ast.Return) for r in ast.walk(n)) for s in body for n in ast.walk(s)):
+                    if targets is not None and _all_paths_return_value(body) and _only_tail_returns(body) and not any(isinstance(n, (ast.For, ast.While)) and any(isinstance(r, ast.Return) for r in ast.walk(n)) for s in body for n in ast.walk(s)):
                         new = self.rename_locals(fn, body, m)
 
                         def ret_to_assign(ss: List[ast.stmt]) -> List[ast.stmt]:
@@ -310,6 +382,26 @@ def normalise_module(tree: ast.Module) -> ast.Module:
             changed = changed or inl.changed
         if not changed:
             break
+    # private helper methods of a class are inlined into the methods that call them through self
+    from collections import Counter
+
+    defined = Counter(m.name for c in t.body if isinstance(c, ast.ClassDef) for m in c.body if isinstance(m, ast.FunctionDef))
+    for cls in [c for c in t.body if isinstance(c, ast.ClassDef)]:
+        for _ in range(3):
+            changed = False
+            # (a method that another class of the module also defines may be an overridable hook: dispatched, not inlined)
+            priv = {m.name: m for m in cls.body if isinstance(m, ast.FunctionDef) and m.name.startswith("_") and not m.name.startswith("__") and defined[m.name] == 1}
+            if not priv:
+                break
+            for m in [x for x in cls.body if isinstance(x, ast.FunctionDef)]:
+                cand = {k: v for k, v in priv.items() if k != m.name}
+                inl = _Inliner(dict(helpers), cand)
+                inl.counter = 500 + _ * 100
+                m.body = inl.stmt_inline(m.body)
+                inl.expr_inline(m)
+                changed = changed or inl.changed
+            if not changed:
+                break
     # module-level scalar constants are propagated into every function that does not re-bind the name
     consts: Dict[str, ast.Constant] = {}
     rebound_at_module = [n.targets[0].id for n in t.body if isinstance(n, ast.Assign) and len(n.targets) == 1 and isinstance(n.targets[0], ast.Name)]
@@ -317,7 +409,7 @@ def normalise_module(tree: ast.Module) -> ast.Module:
         if isinstance(n, ast.Assign) and len(n.targets) == 1 and isinstance(n.targets[0], ast.Name) and isinstance(n.value, ast.Constant) and isinstance(n.value.value, (int, float, str)) and not isinstance(n.value.value, bool) and rebound_at_module.count(n.targets[0].id) == 1:
             consts[n.targets[0].id] = n.value
     if consts:
-        for fn in [f for f in t.body if isinstance(f, ast.FunctionDef)]:
+        for fn in [f for f in t.body if isinstance(f, ast.FunctionDef)] + [m for c in t.body if isinstance(c, ast.ClassDef) for m in c.body if isinstance(m, ast.FunctionDef)]:
             local = _stores(fn.body) | {a.arg for a in fn.args.args}
             m_ = {k: v for k, v in consts.items() if k not in local and not any(isinstance(g, ast.Global) and k in g.names for g in ast.walk(fn))}
             if m_:
@@ -342,5 +434,13 @@ def normalise_module(tree: ast.Module) -> ast.Module:
                 pre.append(copy.deepcopy(n))
         doc = 1 if fn.body and isinstance(fn.body[0], ast.Expr) and isinstance(fn.body[0].value, ast.Constant) and isinstance(fn.body[0].value.value, str) else 0
         fn.body = fn.body[:doc] + pre + fn.body[doc:]
+    class _Fold(ast.NodeTransformer):
+        def visit_Call(self, n):
+            self.generic_visit(n)
+            if isinstance(n.func, ast.Name) and n.func.id == "len" and len(n.args) == 1 and not n.keywords and isinstance(n.args[0], ast.Constant) and isinstance(n.args[0].value, (str, bytes)):
+                return ast.copy_location(ast.Constant(len(n.args[0].value)), n)
+            return n
+
+    t = _Fold().visit(t)
     ast.fix_missing_locations(t)
     return t
